@@ -256,13 +256,13 @@ def kmeans_init(draw, X, k, scale, corner=False):
     return {"method": method, "init": None, "seed": integer(draw, 0, 2**16)}
 
 
-def fa_case(draw, jfa=None, max_sessions=5, maxC=3, maxF=3, d_alive=None):
+def fa_case(draw, jfa=None, max_sessions=5, maxC=3, maxF=3, d_alive=None, scale_lo=-1, scale_hi=2):
     """UBM + U, V, D with generated relative scales + a list of enrolment/probe sessions."""
     C, F = dims(draw, maxC=maxC, maxF=maxF)
     if big():
         C, F = min(C, 4), min(F, 4)
     r = rng(draw)
-    scales = feature_scales(draw, F, lo=-1, hi=2)
+    scales = feature_scales(draw, F, lo=scale_lo, hi=scale_hi)
     ubm = gmm_params(draw, C, F, scales=scales, kmax=5.0)
     sd = np.sqrt(ubm["variances"]).ravel()
     jfa = boolean(draw) if jfa is None else jfa
